@@ -49,11 +49,20 @@ JOINS = ['py_stringsimjoin.join.%s_join_py.%s_join_py' % (m, m) for m in ('jacca
 JOBLIB = ('joblib (ASSUMED): Parallel(n)(delayed(F)(a_j) ...) returns [F(a_j)] in order, F runs on copies of its arguments; '
           'real process scheduling is not modelled')
 
-PROPS['C01'] = dict(functions=ARITH + [SSJ] + JOINS, trusted=[PSM, PANDAS, LEMMA_INJ, JOBLIB])
-PROPS['C02'] = dict(functions=[SSJ] + HELPERS + JOINS, trusted=[PSM, PANDAS, LEMMA_INJ, JOBLIB])
-PROPS['C09'] = dict(functions=[SSJ] + JOINS, trusted=[PSM, PANDAS, LEMMA_INJ])
-PROPS['C11'] = dict(functions=HELPERS + [SSJ, MVH] + JOINS, trusted=[PANDAS])
-PROPS['C08'] = dict(functions=[MVH] + HELPERS + JOINS, trusted=[PANDAS])
-PROPS['C10'] = dict(functions=[GH + 'split_table', GH + 'get_num_processes_to_launch'] + JOINS, trusted=[PANDAS, JOBLIB])
-PROPS['C12'] = dict(functions=JOINS, trusted=[PANDAS, PSM, JOBLIB])
-PROPS['C15'] = dict(functions=VALIDATORS + JOINS, trusted=[PANDAS])
+OVI = 'py_stringsimjoin.index.inverted_index.InvertedIndex.'
+OVF = 'py_stringsimjoin.filter.overlap_filter.OverlapFilter.'
+OVERLAP_CORE = [OVI + '__init__', OVI + 'build', OVF + '__init__', OVF + 'find_candidates',
+                'py_stringsimjoin.filter.overlap_filter._filter_tables_split']
+OVERLAP_API = [OVF + 'filter_pair', OVF + 'filter_tables', 'py_stringsimjoin.join.overlap_join_py.overlap_join_py']
+LEMMA_CNT = ('spec definitions memV / cntV / isectV (match counting) with two ASSUMED induction facts: 0 <= cntV(a,b,p) <= p and '
+             'cntV(a,b,p) = 0 when a is empty')
+
+PROPS['C01'] = dict(functions=ARITH + [SSJ] + JOINS + OVERLAP_CORE + OVERLAP_API, trusted=[PSM, PANDAS, LEMMA_INJ, LEMMA_CNT, JOBLIB])
+PROPS['C02'] = dict(functions=[SSJ] + HELPERS + JOINS + OVERLAP_CORE + OVERLAP_API, trusted=[PSM, PANDAS, LEMMA_INJ, LEMMA_CNT, JOBLIB])
+PROPS['C06'] = dict(functions=OVERLAP_CORE + OVERLAP_API[:2], trusted=[PSM, PANDAS, LEMMA_CNT, JOBLIB])
+PROPS['C09'] = dict(functions=[SSJ] + JOINS + OVERLAP_CORE + OVERLAP_API[:1], trusted=[PSM, PANDAS, LEMMA_INJ])
+PROPS['C11'] = dict(functions=HELPERS + [SSJ, MVH] + JOINS + OVERLAP_CORE[-1:] + OVERLAP_API[1:], trusted=[PANDAS])
+PROPS['C08'] = dict(functions=[MVH] + HELPERS + JOINS + OVERLAP_API, trusted=[PANDAS])
+PROPS['C10'] = dict(functions=[GH + 'split_table', GH + 'get_num_processes_to_launch'] + JOINS + OVERLAP_API[1:], trusted=[PANDAS, JOBLIB])
+PROPS['C12'] = dict(functions=JOINS + OVERLAP_API[1:], trusted=[PANDAS, PSM, JOBLIB])
+PROPS['C15'] = dict(functions=VALIDATORS + JOINS + [OVF + '__init__'] + OVERLAP_API[1:], trusted=[PANDAS])
